@@ -64,6 +64,14 @@ def _ugrid_ds(m, lon360=False, with_attrs=True):
     return ds
 
 
+def _ugrid_ds64(m):
+    ds = _ugrid_ds(m)
+    t = m.table(fill=-1, dtype=np.int64)
+    t = np.where(t == -1, -1, t + 1)
+    ds["Mesh2_face_nodes"] = (("nMesh2_face", "nMaxMesh2_face_nodes"), t, {"cf_role": "face_node_connectivity", "_FillValue": np.int64(-1), "start_index": np.int64(1)})
+    return ds
+
+
 def _std_ds(m, lon360=False):
     import xarray as xr
 
@@ -107,6 +115,7 @@ def constructors(m):
         out["from_face_vertices(tuple)"] = ({"v": tuple(tuple(tuple(p) for p in f) for f in verts)}, lambda i: ux.Grid.from_face_vertices(i["v"], latlon=True))
         out["from_face_vertices(ndarray)"] = ({"v": np.array(verts)}, lambda i: ux.Grid.from_face_vertices(i["v"], latlon=True))
     out["from_dataset(ugrid,start=1,int32)"] = ({"ds": _ugrid_ds(m)}, lambda i: ux.Grid.from_dataset(i["ds"]))
+    out["from_dataset(ugrid,start=1,int64,fill=-1)"] = ({"ds": _ugrid_ds64(m)}, lambda i: ux.Grid.from_dataset(i["ds"]))
     out["open_grid(ugrid ds,lon360)"] = ({"ds": _ugrid_ds(m, lon360=True)}, lambda i: ux.open_grid(i["ds"]))
     out["from_dataset(std,spec)"] = ({"ds": _std_ds(m)}, lambda i: ux.Grid.from_dataset(i["ds"], source_grid_spec="UGRID"))
     out["Grid(ds,lon360)"] = ({"ds": _std_ds(m, lon360=True)}, lambda i: ux.Grid(i["ds"], source_grid_spec="UGRID"))
@@ -294,6 +303,13 @@ def _exports():
         "to_linecollection": lambda g: g.to_linecollection(),
         "uxda.to_geodataframe": lambda g: data(g).to_geodataframe(),
         "uxda.to_polycollection": lambda g: data(g).to_polycollection(),
+        # second and third calls are served from the grid's caches
+        "to_polycollection(return_indices) x2": lambda g: (g.to_polycollection(return_indices=True), g.to_polycollection(return_indices=True))[1][0],
+        "to_polycollection x3": lambda g: (g.to_polycollection(), g.to_polycollection(), g.to_polycollection())[2],
+        "to_linecollection x2": lambda g: (g.to_linecollection(), g.to_linecollection())[1],
+        "to_xarray(ugrid) x2": lambda g: (g.to_xarray("ugrid"), g.to_xarray("ugrid"))[1],
+        "uxda.to_polycollection x2": lambda g: (data(g).to_polycollection(), data(g).to_polycollection())[1],
+        "uxda.to_geodataframe x2": lambda g: (data(g).to_geodataframe(), data(g).to_geodataframe())[1],
     }
     return X
 
@@ -396,7 +412,7 @@ def cases(tier):
     quick = tier == "quick"
     for mesh in (["mixedpatch", "cube"] if quick else ["mixedpatch", "cube", "amstrip", "tetra"]):
         d = 1 if quick else 2
-        for c in ["from_topology(ndarray)", "from_topology(fill=-1,start=1)", "from_topology(int32,fill=999)", "from_topology(lists)", "from_topology(lon360)", "from_topology(+edges,+centres,+xyz)", "open_grid(dict,start=1)", "from_face_vertices(list)", "from_face_vertices(tuple)", "from_face_vertices(ndarray)", "from_dataset(ugrid,start=1,int32)", "open_grid(ugrid ds,lon360)", "from_dataset(std,spec)", "Grid(ds,lon360)"]:
+        for c in ["from_topology(ndarray)", "from_topology(fill=-1,start=1)", "from_topology(int32,fill=999)", "from_topology(lists)", "from_topology(lon360)", "from_topology(+edges,+centres,+xyz)", "open_grid(dict,start=1)", "from_face_vertices(list)", "from_face_vertices(tuple)", "from_face_vertices(ndarray)", "from_dataset(ugrid,start=1,int32)", "from_dataset(ugrid,start=1,int64,fill=-1)", "open_grid(ugrid ds,lon360)", "from_dataset(std,spec)", "Grid(ds,lon360)"]:
             n = len(INPUT_EVENTS) ** d
             if d == 1:
                 out.append({"kind": "inputs", "mesh": mesh, "ctor": c, "depth": d})
@@ -414,7 +430,7 @@ def cases(tier):
 
 
 def _export_names():
-    return ["to_xarray(ugrid)", "to_xarray(exodus)", "to_xarray(scrip)", "to_geodataframe(spatialpandas)", "to_geodataframe(geopandas)", "to_polycollection", "to_linecollection", "uxda.to_geodataframe", "uxda.to_polycollection"]
+    return ["to_xarray(ugrid)", "to_xarray(exodus)", "to_xarray(scrip)", "to_geodataframe(spatialpandas)", "to_geodataframe(geopandas)", "to_polycollection", "to_linecollection", "uxda.to_geodataframe", "uxda.to_polycollection", "to_polycollection(return_indices) x2", "to_polycollection x3", "to_linecollection x2", "to_xarray(ugrid) x2", "uxda.to_polycollection x2", "uxda.to_geodataframe x2"]
 
 
 def _mutator_names():
